@@ -77,6 +77,12 @@ RecOf(e, A, B) == IF e.mode = "thr"
                   ELSE RecRate(e.metric, A, B, e.pn, e.pd)
 XTags(e) == "x," \o e.mode \o (IF e.emb = 1 THEN ",embedded" ELSE "")
             \o (IF e.taux # e.tauy THEN ",unequal_delays" ELSE "")
+XLinesOK(c) ==
+  \/ c.xl.exc = "NotImplementedError"
+  \/ /\ c.xl.exc = ""
+     /\ (HistHolds(c.xl.diag, XDiagLens(c.CR, TRUE)) \/ HistHolds(c.xl.diag, XDiagLens(c.CR, FALSE)))
+     /\ \/ HistHolds(c.xl.vert, XColLens(c.CR, 1)) /\ HistHolds(c.xl.white, XColLens(c.CR, 0))
+        \/ HistHolds(c.xl.vert, XRowLens(c.CR, 1)) /\ HistHolds(c.xl.white, XRowLens(c.CR, 0))
 XVerdict(e) ==
   LET R_(c, s) == <<"REJECT", c, s, XTags(e)>>
       \* the cross plot embeds both series with its single delay, the inter-system network each with its own
@@ -92,7 +98,10 @@ XVerdict(e) ==
      \* (without embedding the cross plot keeps the series in double precision, where the level 2^27 is exact; the
      \* embedding is stored in single precision, which cannot hold such a level - nothing is demanded there)
      ELSE IF e.emb = 0 /\ c.CRfar # c.CR THEN R_("Translation", "CrossRecurrencePlot.recurrence_matrix(level 2^27)")
-     ELSE IF c.lines_exc # "NotImplementedError" THEN R_("RQAApplicable", "CrossRecurrencePlot.diagline_dist")
+     \* line statistics of a cross plot: refused as not implemented, or - where offered - the run-length counts of
+     \* the reported matrix (all diagonals, with or without the one of offset 0; vertical = along either axis, the
+     \* orientation is not documented)
+     ELSE IF ~XLinesOK(c) THEN R_("RQAApplicable", "CrossRecurrencePlot.diagline_dist/vertline_dist/white_vertline_dist:" \o c.xl.exc)
      ELSE IF n.exc # "" THEN R_("Applicable", "InterSystemRecurrenceNetwork:" \o n.exc)
      ELSE IF ~(n.Nx = Len(X) /\ n.Ny = Len(Y) /\ n.N = Len(X) + Len(Y)) THEN R_("Sizes", "InterSystemRecurrenceNetwork.N_x/N_y/N")
      ELSE IF n.adj # NoDiag(InterSystem(RecOf(e, X, X), RecOf(e, Y, Y), RecOf(e, X, Y)))
